@@ -11,5 +11,5 @@ if [ "$T" = raw ]; then
 fi
 cd "$W" && VJX_ROOT="$ROOT" VJX_ORACLE="$O" VJX_FUZZ_OUT="$W/out" \
   "$ROOT/fuzz/target/x86_64-unknown-linux-gnu/release/$T" -max_total_time="$S" -seed=7 -fork="$J" \
-  -max_len=800 -len_control=0 -rss_limit_mb=4096 -artifact_prefix="$W/out/" corpus 2>&1 | grep -E "^#[0-9]+:|VJX-VIOLATION|crash|deadly" | tail -5
+  -max_len=800 -len_control=0 -rss_limit_mb=4096 -timeout=25 -artifact_prefix="$W/out/" corpus 2>&1 | grep -E "^#[0-9]+:|VJX-VIOLATION|crash|deadly" | tail -5
 ls "$W/out" | head; mkdir -p "$ROOT/fuzz/found"; cp "$W"/out/* "$ROOT/fuzz/found/" 2>/dev/null; rm -rf "$W/corpus"
